@@ -50,12 +50,12 @@ SAMPLE_FILES = [
 _RUN = {"text": ""}
 
 
-def cfg(mech, maxops, maxexp, r1, s1, r2, s2, io, invs=(), view=None, init="Init", nxt="Next"):
+def cfg(mech, maxops, maxexp, r1, s1, r2, s2, io, invs=(), view=None, init="Init", nxt="Next", emit_places=False):
     """Configuration + the generated root module EncodeRun (TLC's cfg syntax has no tuples: the sets of
     face-size sequences are definitions of the root module, substituted for the constants)."""
     _RUN["text"] = (
-        "---- MODULE EncodeRun ----\nEXTENDS %s\nRunShapes1 == %s\nRunShapes2 == %s\n====\n"
-        % ("TraceEncode" if init == "TraceInit" else "EncodeLazy", s1, s2)
+        "---- MODULE EncodeRun ----\nEXTENDS %s\nRunShapes1 == %s\nRunShapes2 == %s\n%s====\n"
+        % ("TraceEncode" if init == "TraceInit" else "EncodeLazy", s1, s2, 'ASSUME PrintT(<<"PLACES", Places>>)\n' if emit_places else "")
     )
     return (
         "INIT %s\nNEXT %s\nCONSTANTS\n MechName = \"%s\"\n MaxOps = %d\n MaxExports = %d\n Routes1 = %s\n Shapes1 <- RunShapes1\n Routes2 = %s\n Shapes2 <- RunShapes2\n WithIO = %s\n"
@@ -195,7 +195,7 @@ def cex_classes(ctx, mech, maxops, r1, s1, r2, s2, io, what):
     return classes, len(allc)
 
 
-def pick_entries(desc, rng, origin):
+def pick_entries(desc, rng, origin, place=None):
     """Real meshes for a scenario.  The face table TLC generated for the scenario's size sequence is
     realised as it is (x_c07.strip_entry attaches coordinates; the table must coincide); for part of
     the cover behaviours a closed / partial catalogue polyhedron of the same kind (uniform, mixed)
@@ -204,13 +204,13 @@ def pick_entries(desc, rng, origin):
     used = set()
     for g in sorted(desc):
         shape = desc[g]["shape"]
-        if origin == "cover" and rng.random() < 0.35:
+        if origin == "cover" and rng.random() < 0.15:
             pool = [n for n in (MIX if len(set(shape)) > 1 else UNI) if n not in used]
             name = rng.choice(pool)
             used.add(name)
             out[g] = catalog.entries(name=name, rot=rng.randrange(25), cut=rng.choice([0, 0, 0, 2, 3, 5]))[0]
         else:
-            e = x_c07.strip_entry(shape, rng)
+            e = x_c07.strip_entry(shape, rng, place)
             if e["faces"] != desc[g]["mesh"]:
                 raise Machinery("strip mesh for %s differs from the table TLC generated: %s vs %s" % (shape, e["faces"], desc[g]["mesh"]))
             out[g] = e
@@ -354,6 +354,7 @@ def report(ctx, behs, results, viol, origin):
                 "mixed": len(sizes) > 1,
                 "spread": (max(sizes) - min(sizes)) if sizes else 0,
                 "at": L["ev"],
+                "place": "%s%+g" % (b["place"]["anchor"], b["place"]["off"] * 1e-6) if b.get("place") else "",
             }
             key = "%s@%d:%s:%s:%s" % (beh_id(b), rel + 1, L["ev"], clause, detail)
             ctx.violation(
@@ -522,9 +523,15 @@ def run(ctx):
     if thorough:
         plans = [(4, SH_ALL, '{"topoE"}', SH_G2), (3, SH_ALL_T, '{"topo","fv"}', "{<<3,5>>}")]
     n_edges = n_nodes = 0
+    places = []
     for depth, s1, r2, s2 in plans:
-        ctx.tlc_ok("EncodeRun", cfg("intended", depth, 2, ALL_ROUTES, s1, r2, s2, False, [], "GenView"),
-                   extra_modules=M(), what="call graph to depth %d for the transition cover" % depth, workers=1, dump_dot=dot, timeout=3000)
+        rr = ctx.tlc_ok("EncodeRun", cfg("intended", depth, 2, ALL_ROUTES, s1, r2, s2, False, [], "GenView", emit_places=True),
+                        extra_modules=M(), what="call graph to depth %d for the transition cover + the set of places" % depth, workers=1, dump_dot=dot, timeout=3000)
+        j = rr.out.find('"PLACES"')
+        if j >= 0:
+            v, _ = tlaval.parse_prefix(rr.out, rr.out.rfind("<<", 0, j))
+            if True:
+                places = sorted(({"anchor": str(dict(x)["anchor"]), "off": int(dict(x)["off"])} for x in v[1]), key=lambda x: (x["anchor"], x["off"]))
         bs, ne, nn = transition_cover(dot)
         os.remove(dot)
         n_edges += ne
@@ -546,12 +553,21 @@ def run(ctx):
 
     behs = []
     t = 0
+    if len(places) < 20:
+        raise Machinery("TLC emitted %d places" % len(places))
+    ctx.note("places_generated_by_TLC", len(places))
+    # every provenance route meets every place: within a route the cover behaviours cycle through the places
+    gens.sort(key=lambda b: (b["desc"]["g1"]["route"], str(b["desc"]["g1"]["shape"]), str(b["calls"])))
+    nth = {}
     for src in (cex, regress, [dict(b, origin="cover") for b in gens]):
         for b in src:
             origin = b["origin"]
             t += 1
-            ents = pick_entries(b["desc"], rng, origin)
-            behs.append({"t": t, "origin": origin, "desc": b["desc"], "entries": ents, "names": {g: (catalog.eid(e) if "rot" in e else e["name"]) for g, e in ents.items()},
+            route1 = b["desc"]["g1"]["route"]
+            place = places[nth.get(route1, 0) % len(places)] if origin == "cover" else rng.choice(places)
+            nth[route1] = nth.get(route1, 0) + (1 if origin == "cover" else 0)
+            ents = pick_entries(b["desc"], rng, origin, place)
+            behs.append({"t": t, "origin": origin, "desc": b["desc"], "entries": ents, "place": place, "names": {g: (catalog.eid(e) if "rot" in e else e["name"]) for g, e in ents.items()},
                          "routes": {g: b["desc"][g]["route"] for g in b["desc"]}, "calls": finish_calls(b["calls"], rng), "work": ctx.work,
                          "expect": b.get("expect"), "model_bad": b.get("bad")})
     # 5. code -> spec: bigger inputs (sample files, random mixed planar meshes), same machine, same judge
